@@ -38,7 +38,7 @@ def main():
         if t in ("bool", "int", "str"):
             return j["v"]
         if t == "float":
-            return float(j["v"])
+            return np.float64(j["v"]) if req.get("np_floats") else float(j["v"])
         if t == "ref":
             return memo[j["id"]]
         if t == "list":
@@ -130,15 +130,36 @@ def main():
     out = {}
     buf = io.StringIO()
     calls = None
+    results = []
+
+    class _Res:
+        def __init__(self, j):
+            self.j = j
+
+        def get(self):
+            v = results[self.j["k"]]
+            for p in self.j["path"]:
+                if isinstance(p, str) and p.startswith("."):
+                    v = getattr(v, p[1:])
+                else:
+                    v = v[p]
+            return v
+
+    def dec2(j):
+        return _Res(j) if j.get("t") == "result" else dec(j)
+
     if "calls" in req:
-        calls = [(resolve(c["file"], c["func"]), [dec(x) for x in c["args"]], {k: dec(v) for k, v in c["kwargs"].items()})
+        calls = [(resolve(c["file"], c["func"]), [dec2(x) for x in c["args"]], {k: dec(v) for k, v in c["kwargs"].items()})
                  for c in req["calls"]]
     else:
         fn = resolve(req["file"], req["func"])
     try:
         with contextlib.redirect_stdout(buf):
             if calls is not None:
-                res = [f(*a_, **k_) for (f, a_, k_) in calls]
+                for ci, (f, a_, k_) in enumerate(calls):
+                    a_[:] = [x.get() if isinstance(x, _Res) else x for x in a_]
+                    results.append(f(*a_, **k_))
+                res = results
             else:
                 res = fn(*args, **kwargs)
         out["outcome"] = "return"
